@@ -1186,6 +1186,10 @@ fn gen_c07(cfg: &GenCfg, rng: &mut Rng, w: &mut dyn Write, kind: &str) {
             writeln!(w, "{}", l2).unwrap();
             sets.push(s);
         }
+        if !z && c % 4 == 1 {
+            // substitution objects created by several threads at once get distinct identifiers
+            writeln!(w, "substids {} {} {} {}", rng.pick(&[2u32, 4]), if cfg.thorough { 20000 } else { 8000 }, rng.pick(&pool), rng.below(n as u64)).unwrap();
+        }
         let rounds = if stress { 6 } else { 4 };
         for round in 0..rounds {
             let nt = rng.range(2, 4) as usize;
@@ -1478,6 +1482,53 @@ fn gen_c14_fill(cfg: &GenCfg, rng: &mut Rng, w: &mut dyn Write, kind: &str) {
     }
 }
 
+/// C05/C07: the background collector. A small store (run with `--capped 1`: every line also runs on
+/// a large reference manager whose output is the compared stream) in which a bounded set of live
+/// handles is kept while garbage accumulates, so that the high water mark is crossed, the gc thread
+/// collects, the count drops below the low water mark and the cycle repeats many times. Every
+/// result is compared with the reference manager and with the truth-table oracle.
+fn gen_bggc(cfg: &GenCfg, rng: &mut Rng, w: &mut dyn Write, kind: &str) {
+    let cases = if cfg.thorough { 12 } else { 2 } * cfg.scale;
+    for c in 0..cases {
+        let n = if zbdd(kind) { 6 } else { 7 } as u32;
+        let cap = *rng.pick(&[1000usize, 1500, 2500]);
+        let threads = if c % 2 == 0 { 1 } else { 2 };
+        writeln!(w, "case bggc-{}-cap{}-t{}", c, cap, threads).unwrap();
+        writeln!(w, "mgr nodes={} cache=256 threads={} vars={}", cap, threads, n).unwrap();
+        let mut live: Vec<String> = Vec::new();
+        for v in 0..n {
+            writeln!(w, "var x{} {}", v, v).unwrap();
+            live.push(format!("x{v}"));
+        }
+        let steps = if cfg.thorough { 6000 } else { 2500 };
+        let mut next = 0usize;
+        for s in 0..steps {
+            let name = format!("h{}", next);
+            next += 1;
+            let (a, b) = (rng.pick(&live).clone(), rng.pick(&live).clone());
+            if rng.chance(1, 8) {
+                writeln!(w, "op {} ite {} {} {}", name, a, b, rng.pick(&live)).unwrap();
+            } else {
+                writeln!(w, "op {} {} {} {}", name, rng.pick(&BIN_OPS), a, b).unwrap();
+            }
+            live.push(name);
+            // keep the set of live handles bounded: the rest becomes garbage
+            while live.len() > n as usize + 14 {
+                let i = rng.range(n as u64, live.len() as u64 - 1) as usize;
+                let d = live.swap_remove(i);
+                writeln!(w, "drop {}", d).unwrap();
+            }
+            if s % 500 == 499 {
+                writeln!(w, "rcchk").unwrap();
+                writeln!(w, "audit").unwrap();
+            }
+        }
+        writeln!(w, "dropall").unwrap();
+        writeln!(w, "gc").unwrap();
+        writeln!(w, "dump").unwrap();
+    }
+}
+
 fn generate(cfg: &GenCfg, rng: &mut Rng, w: &mut dyn Write) {
     let kind = cfg.extra.get("kind").map(|s| s.as_str()).unwrap_or("bdd").to_string();
     let suite = cfg.extra.get("suite").map(|s| s.as_str()).unwrap_or("c02").to_string();
@@ -1491,6 +1542,7 @@ fn generate(cfg: &GenCfg, rng: &mut Rng, w: &mut dyn Write) {
         "c06" => gen_c06(cfg, rng, w, &kind),
         "c07" => gen_c07(cfg, rng, w, &kind),
         "c08" => gen_c08(cfg, rng, w, &kind),
+        "bggc" => gen_bggc(cfg, rng, w, &kind),
         "c14" => {
             gen_c14(cfg, rng, w, &kind);
             gen_c14_sparse(cfg, rng, w, &kind);
